@@ -1,6 +1,6 @@
 #!/bin/bash
 # tools/rerun_suite.sh <PROP> <n> : re-run only the repository suite for a kept seed and patch result.txt
-P=$1; N=$2; D=/verif/seeded/$P-$N; WT=/tmp/suitewt_${P}_$N
+P=$1; N=$2; D=/verif/seeded/$P-$N; WT=/tmp/suitewt_$(echo ${P}x$N | tr "0-9" "a-j")
 git -C /repo worktree remove --force $WT >/dev/null 2>&1
 git -C /repo worktree add -f $WT HEAD -q || exit 2
 git -C $WT apply $D/patch.diff || exit 1
